@@ -195,6 +195,46 @@ Proof.
   intros isln lower ev tops b1 e b2 H0 Hd Ha. exact (template_embedded isln lower H0 Hd Ha ev tops b1 e b2).
 Qed.
 
+(* an expression that never closes: everything is body text, "@@" is unescaped before and after the "@(" *)
+Theorem template_unterminated_stmt : forall isln lower (eval_expr : ExScanner.text -> option ExScanner.text) tops b1 e,
+  isln 0 = false -> isln r_dot = false -> isln r_at = false ->
+  nulfree b1 -> nulfree e ->
+  no_start isln lower (Some tops) b1 = true -> at_open b1 = false -> unterminated e ->
+  template_with isln lower eval_expr tops (b1 ++ r_at :: r_lparen :: e) =
+  Ok (unescape_at b1 ++ r_at :: r_lparen :: unescape_at e, O).
+Proof.
+  intros isln lower ev tops b1 e H0 Hd Ha. exact (template_unterminated isln lower H0 Hd Ha ev tops b1 e).
+Qed.
+
+(* source-level form: no closing parenthesis anywhere after the "@(" *)
+Corollary template_no_rparen_stmt : forall isln lower (eval_expr : ExScanner.text -> option ExScanner.text) tops b1 e,
+  isln 0 = false -> isln r_dot = false -> isln r_at = false ->
+  nulfree b1 -> nulfree e ->
+  no_start isln lower (Some tops) b1 = true -> at_open b1 = false -> ~ In r_rparen e ->
+  template_with isln lower eval_expr tops (b1 ++ r_at :: r_lparen :: e) =
+  Ok (unescape_at b1 ++ r_at :: r_lparen :: unescape_at e, O).
+Proof.
+  intros isln lower ev tops b1 e H0 Hd Ha Hn1 Hne Hns Hao Hnr.
+  exact (template_unterminated isln lower H0 Hd Ha ev tops b1 e Hn1 Hne Hns Hao (no_rparen_unterminated e Hnr)).
+Qed.
+
+(* the hypotheses are satisfiable and the statement says something: with allowed top level foo,
+     a@@b @(1 + (2) @@ @foo.x       evaluates to      a@b @(1 + (2) @ @foo.x
+   (a balanced pair of parentheses inside does not close the expression; the reference after the "@(" is not
+   evaluated; both "@@" become '@') *)
+Example template_unterminated_witness :
+  let b1 := [97; 64; 64; 98; 32] in
+  let e := [49; 32; 43; 32; 40; 50; 41; 32; 64; 64; 32; 64; 102; 111; 111; 46; 120] in
+  nulfree b1 /\ nulfree e /\ no_start ascii_isln ascii_lower (Some [[102; 111; 111]]) b1 = true /\ at_open b1 = false
+  /\ unterminated e /\ In r_rparen e
+  /\ template_with ascii_isln ascii_lower (fun _ => None) [[102; 111; 111]] (b1 ++ r_at :: r_lparen :: e) =
+     Ok ([97; 64; 98; 32; 64; 40; 49; 32; 43; 32; 40; 50; 41; 32; 64; 32; 64; 102; 111; 111; 46; 120], O).
+Proof.
+  cbv zeta. split; [repeat constructor; discriminate|]. split; [repeat constructor; discriminate|].
+  split; [reflexivity|]. split; [reflexivity|]. split; [vm_compute; discriminate|].
+  split; [cbn; tauto|]. vm_compute. reflexivity.
+Qed.
+
 (* the lexer half of "wherever the literal stands": followed by ANY text, the quoted form is one TEXT token whose value
    is s — unless s ends in a backslash and a quote occurs later (F10b) *)
 From Verif Require Import proofs.ExRender.
